@@ -13,6 +13,7 @@ import ToastyVerif.Model.Pixels
 import ToastyVerif.Model.Cascade
 import ToastyVerif.Props.C14
 import ToastyVerif.Model.Stage
+import ToastyVerif.Model.Lock
 
 namespace Driver
 
@@ -462,6 +463,39 @@ def handleStage (a : List String) : String :=
     | _, _, _ => "bad-op"
   | _ => "bad-op"
 
+/-! ### locked read-modify-write: replay -/
+
+def parseLockLabel (t : String) : Option Lock.L :=
+  match t.splitOn ":" with
+  | ["lk", i] => i.toNat?.map .lock
+  | ["rb", i] => i.toNat?.map .readBegin
+  | ["re", i] => i.toNat?.map .readEnd
+  | ["wb", i] => i.toNat?.map .writeBegin
+  | ["we", i] => i.toNat?.map .writeEnd
+  | ["ul", i] => i.toNat?.map .unlock
+  | _ => none
+
+def replayLock (s : Lock.S) (idx : Nat) : List String → String
+  | [] =>
+    let fileS := match s.file with
+      | .stable v => ",".intercalate (v.map toString)
+      | .part => "PARTIAL"
+    let alldone := (List.range s.n).all fun i => s.us i == .done
+    s!"ok file={fileS} done={alldone} partial_reads={s.partialReads}"
+  | t :: ts =>
+    match parseLockLabel t with
+    | none => "bad-op"
+    | some l => match Lock.step s l with
+      | some s' => replayLock s' (idx + 1) ts
+      | none => s!"reject {idx} {t}"
+
+def handleLock (a : List String) : String :=
+  match a with
+  | n :: labels => match n.toNat? with
+    | some n => replayLock (Lock.init n) 0 labels
+    | none => "bad-op"
+  | _ => "bad-op"
+
 def handle (toks : List String) : String :=
   match toks with
   | "gen" :: op :: args => match ints args with
@@ -480,6 +514,7 @@ def handle (toks : List String) : String :=
   | "casc" :: op :: args => handleCasc op args
   | "range" :: args => handleRange args
   | "stage" :: args => handleStage args
+  | "lock" :: args => handleLock args
   | _ => "bad-op"
 
 end Driver
